@@ -310,13 +310,18 @@ def pickled_fields(env):
     autosave_dt = env.real("autosave_dt", lo=10.0, hi=1000.0)
     env.assume(autosave_dt > 10.0, "autosave_dt > 10 s (enforced by MPSConfig)")
     tagset = ("bitstrings", "occupation", "correlation_matrix", "energy")
+    # with reordering on the solver's Results live in SITE order (here the swap of the two atoms): the restored
+    # solver must keep that order, permute_results maps it back at the very end of the (resumed) run
+    reorder = env.boolean("optimize_qubit_ordering (site order = swapped register order)")
     cm = _quiet()
     old_stats = mi.Statistics
     mi.Statistics = _FakeStatistics  # cannot be constructed with pulser-core 1.9.1 (see C33); logging collaborator
+    old_minbw = mi.optimat.minimize_bandwidth
+    mi.optimat.minimize_bandwidth = lambda m, *a, **k: T.tensor([1, 0])  # (the optimiser itself is C32's subject)
     try:
         cfg = mc.MPSConfig(
             observables=_observables(tagset),
-            optimize_qubit_ordering=False,
+            optimize_qubit_ordering=reorder,
             precision=precision,
             extra_krylov_tolerance=extra,
             autosave_dt=autosave_dt,
@@ -359,6 +364,8 @@ def pickled_fields(env):
             else:
                 env.check_eq(have, want, f"restored implementation has the same {name}")
         env.check(isinstance(new.results, pb.Results), "restored results are a Results object")
+        want_order = ("q1", "q0") if reorder else ("q0", "q1")
+        env.check(tuple(str(a) for a in new.results.atom_order) == want_order, "restored results keep the solver's site order (un-permuted only at the end of the run)")
         _compare(env, new.results, impl.results, tagset, "restored vs saved results")
         nc = new.config
         env.check(type(nc) is type(cfg) and nc is not cfg, "restored config is a fresh MPSConfig")
@@ -391,6 +398,7 @@ def pickled_fields(env):
         )
     finally:
         mi.Statistics = old_stats
+        mi.optimat.minimize_bandwidth = old_minbw
         cm.__exit__(None, None, None)
 
 
